@@ -177,8 +177,20 @@ pub fn drive(args: &[String]) -> i32 {
         // integer-valued samplers are cheap and their rare branches need many draws: ten times the block
         let discrete = ["Binomial", "Hypergeometric", "Poisson", "Geometric", "Zipf", "Zeta", "StandardGeometric"].contains(&e.family) && e.variant != "beyond-E";
         let block_calls = if entry_timeouts >= 3 { 3 } else if discrete { block_calls * 10 } else { block_calls };
-        let jobs: Vec<Job> = (0..block_calls).map(|c| Job { entry: ei, prefix: vec![], seed: seed ^ (0xb10c + c * 104729 + ei as u64 * 31), at: 0, word: 0, mode: 1 }).collect();
-        for d in run_batch(jobs, limit_ms, &mut jtx, &mut drx) {
+        // in chunks, so that an entry whose consumption has exploded (already a budget violation) does not stall the run
+        let mut done_calls = 0u64; let t_block = Instant::now();
+        let mut all: Vec<Done> = vec![];
+        while done_calls < block_calls {
+            let chunk = (block_calls - done_calls).min(2000);
+            let jobs: Vec<Job> = (done_calls..done_calls + chunk).map(|c| Job { entry: ei, prefix: vec![], seed: seed ^ (0xb10c + c * 104729 + ei as u64 * 31), at: 0, word: 0, mode: 1 }).collect();
+            let ds = run_batch(jobs, limit_ms + 20_000, &mut jtx, &mut drx);
+            done_calls += chunk;
+            let stop = ds.iter().any(|d| d.words >= 100_000 || d.out.as_ref().err().map(|p| p == "Timeout").unwrap_or(false)) || t_block.elapsed().as_secs() > 20;
+            all.extend(ds);
+            if stop { break; }
+        }
+        let block_calls = done_calls;
+        for d in all {
             ncalls += 1;
             sum_words += d.words; max_words = max_words.max(d.words); max_us = max_us.max(d.us);
             match d.out {
